@@ -35,6 +35,8 @@ def replay_search_failure(ck, B, h, N):
         ck.inconclusive.append(f'{h.name} FAILED ({h.failed_checks[:3]}); concrete playback produced no values')
         return
     z, m = decode_zone(vecs, N)
+    if 'leap' not in h.name:
+        z.leaps = []   # these harnesses pass an empty leap table whatever the generator produced
     c = m.get('c', 0)
     nat = common.Native()
     why = zoneref.judge_search(nat, z, c)
